@@ -1109,9 +1109,9 @@ namespace Pistache::Http::Experimental
 
         if (conn == nullptr)
         {
-            return Async::Promise<Response>([this, resource = std::move(resource),
-                                             request](Async::Resolver& resolve,
-                                                      Async::Rejection& reject) {
+            auto res = Async::Promise<Response>([this, resource = std::move(resource),
+                                                 request](Async::Resolver& resolve,
+                                                          Async::Rejection& reject) {
                 Guard guard(queuesLock);
 
                 auto data = std::make_shared<Connection::RequestData>(
@@ -1120,6 +1120,11 @@ namespace Pistache::Http::Experimental
                 if (!queue.enqueue(data))
                     data->reject(std::runtime_error("Queue is full"));
             });
+            // A connection may have been released, and the queues looked through,
+            // between the failed pick above and the enqueue; nobody would come back
+            // for this request then.
+            processRequestQueue();
+            return res;
         }
         else
         {
